@@ -1179,6 +1179,17 @@ func intFloatSimplify(op opcode, s ssort, p0 int, args []*term) *term {
 	switch op {
 	case oFAdd, oFSub, oFMul:
 		a, ok1 := asIntFloat(args[0])
+		// x + (-0.0), x - (-0.0), x - (+0.0) and (-0.0) + x are x itself for an integer-valued x (which is
+		// never -0); -0.0 is not an integer image, so the general rule below does not see these
+		if op != oFMul {
+			isZero := func(t *term) bool { return t.isConst() && t.bits<<1 == 0 }
+			if ok1 && isZero(args[1]) {
+				return args[0]
+			}
+			if _, okb := asIntFloat(args[1]); okb && op == oFAdd && isZero(args[0]) {
+				return args[1]
+			}
+		}
 		if !ok1 {
 			return nil
 		}
